@@ -12,7 +12,7 @@ EXPLANATION = (
     "reset/stop_sending/poll_data). Also decided: end of body is reported only at a real end (poll_data is reached "
     "only with data owed, so a zero-length DATA frame is skipped), trailers read early are kept across Pending. "
     "Byte-exact, in-order delivery of payload bytes is value-level and not decided.")
-RULES = "C03-srv/C03-cli/C03-body/C03-trl request-stream dispatch tables at the discovered sites (A3; rows read off the decisions, whatever the form); C03-eob end of body only at a real end (A2); trailers kept across Pending (A8); C03-unk memo rules (shared); C03-type frame-type table (shared); C03-split halves keep the decoder state; shared through a proxy: C02-e under C03-type"
+RULES = "C03-srv/C03-cli/C03-body/C03-trl request-stream dispatch tables at the discovered sites (A3; rows read off the decisions, whatever the form); C03-eob end of body only at a real end (A2); trailers kept across Pending (A8); C03-unk memo rules (shared); C03-type frame-type table (shared); C03-split halves keep the decoder state; shared through a proxy: C02-e under C03-type, C02-d (FrameStream::poll_data) under C03-eob"
 
 F = "h3::proto::frame::Frame"
 PN = "h3::frame::FrameStream::poll_next"
@@ -78,6 +78,8 @@ def unexpected(o, p):
 
 def run(ctx):
     prog = ctx.prog
+    # the codes this property names are the registry values (the rules below speak of them by name)
+    shared.error_code_values(ctx, "C03-type", ("H3_FRAME_UNEXPECTED", "H3_REQUEST_INCOMPLETE", "H3_FRAME_ERROR"))
     found = discover(prog)
     ctx.floor("C03", "bodies switching on a Frame discriminant", len(found), 13)
     for k in sorted(found):
